@@ -302,8 +302,11 @@ def glue_builtins() -> None:
         # block on an event loop trap is to await something),
         # and we want to treat them as suspended for
         # traceback extraction purposes.
-        if agen.ag_running and agen.ag_await is None:
+        if agen.ag_running and agen.ag_await is None and agen.ag_frame is not None:
             return StackSlice(outer=agen.ag_frame)
+        # (ag_frame is None for a finished generator; CPython can leave
+        # ag_running set on one that was finished by an exception thrown
+        # into its in-flight aclose())
         return (agen.ag_frame, agen.ag_await)
 
     async def some_asyncgen() -> AsyncGenerator[None, None]:
